@@ -234,6 +234,11 @@ def run_scenario(sc: dict, passes: int = 3) -> dict:
     res = fw.run_script({"src": r["src"], "passes": (passes + (1 if sc.get("cont") else 0)) if sc["hasloop"] else 0, "inputs": r["inputs"], "again": True})
     out = {"id": sid(sc), "sc": sc, "src": r["src"], "transpile": res["transpile"], "msg": res.get("msg"), "cls": res.get("cls"),
            "compile": res.get("compile"), "stderr": (res.get("stderr") or "")[-500:] if res.get("compile") == "fail" else ""}
+    if res["transpile"] == "accept" and res.get("compile") == "ok" and res.get("memerr") == "timeout":
+        # the sketch never finished its passes (setup() or a statement does not return): no trace to judge, the phases never came
+        out["hang"] = True
+        out["first_events"] = res["events"][:40]
+        return out
     if res["transpile"] == "accept" and res.get("compile") == "ok":
         out["trace"] = {"id": sid(sc), "pins": [[p, m] for p, m in sorted(r["pins"].items())], "buttons": [str(b) for b in r["buttons"]] + list(r["ticks"]),
                         "ev": project(res["events"], r["buttons"], r["motors"], r["ticks"])}
